@@ -4,5 +4,5 @@ set -e
 P=$1; ID=$2
 cd "$(dirname "$0")/.."
 mkdir -p seeded/$ID
-cp /tmp/wt/out/$P/patch.diff /tmp/wt/out/$P/demo.py /tmp/wt/out/$P/meta.json seeded/$ID/
+SRC=${3:-/tmp/wt/out}; cp $SRC/$P/patch.diff $SRC/$P/demo.py $SRC/$P/meta.json seeded/$ID/
 /venv/bin/python tools/seeded.py --only $ID --confirm
